@@ -34,10 +34,45 @@ func TestC04Rapid(t *testing.T) {
 		if err := l.Materialise(); err != nil {
 			t.Fatalf("VERIF-HARNESS materialise: %v", err)
 		}
-		r := layout.Resolve(l)
+		rOld := layout.Resolve(l)
 		cache, _ := cdi.NewCache(cdi.WithSpecDirs(l.Paths()...), cdi.WithAutoRefresh(false))
+		// stale variant: the directories change after the cache was populated and no Refresh() is
+		// called. Whether a manual cache may look at the directories again is left open; but one
+		// request must be answered from ONE content: the one before or the one after the change.
+		stale := rapid.IntRange(0, 2).Draw(t, "staleCache") == 0
+		r := rOld
+		if stale {
+			for i, n := 0, rapid.IntRange(1, 3).Draw(t, "nChanges"); i < n; i++ {
+				var ex []int
+				for di, d := range l.Pool {
+					if d.Exists {
+						ex = append(ex, di)
+					}
+				}
+				d := rapid.SampledFrom(ex).Draw(t, fmt.Sprintf("chgDir%d", i))
+				names := l.Pool[d].SortedFileNames()
+				if len(names) > 0 && rapid.Bool().Draw(t, fmt.Sprintf("chgRemove%d", i)) {
+					_ = l.RemoveFile(d, rapid.SampledFrom(names).Draw(t, fmt.Sprintf("chgFile%d", i)))
+				} else {
+					name := rapid.SampledFrom([]string{"n1.json", "n2.yaml", "a.json"}).Draw(t, fmt.Sprintf("chgName%d", i))
+					_ = l.PutFile(d, l.NewValidFile(t, fmt.Sprintf("chg%d", i), l.Pool[d].Name, name, nil, "", nil))
+				}
+			}
+			r = layout.Resolve(l) // the content after the change; rOld is the content before
+		}
 		// names of several classes
 		resolvable := r.SortedDevices()
+		if stale {
+			seen := map[string]bool{}
+			for _, q := range resolvable {
+				seen[q] = true
+			}
+			for _, q := range rOld.SortedDevices() {
+				if !seen[q] {
+					resolvable = append(resolvable, q)
+				}
+			}
+		}
 		var conflicted, onlyInvalidOrUnknown []string
 		for _, q := range layout.AllNames() {
 			if r.Conflicted[q] {
@@ -68,10 +103,13 @@ func TestC04Rapid(t *testing.T) {
 			req = append(req, name)
 			classes[class] = true
 		}
-		var want []string
+		var want, wantOld []string
 		for _, q := range req {
 			if _, ok := r.Devices[q]; !ok {
 				want = append(want, q)
+			}
+			if _, ok := rOld.Devices[q]; !ok {
+				wantOld = append(wantOld, q)
 			}
 		}
 		nilSpec := rapid.IntRange(0, 9).Draw(t, "nilSpec") == 0
@@ -91,6 +129,14 @@ func TestC04Rapid(t *testing.T) {
 		}
 		if !reflect.DeepEqual(req, reqCopy) {
 			fail("the request slice was modified")
+		}
+		if stale && !nilSpec && !reflect.DeepEqual(want, wantOld) {
+			// the answer must be the one for the content before or the one for the content after the change
+			if reflect.DeepEqual(unresolved, wantOld) && (ierr != nil) == (len(wantOld) > 0) {
+				want = wantOld
+			} else if !(reflect.DeepEqual(unresolved, want) && (ierr != nil) == (len(want) > 0)) {
+				fail(fmt.Sprintf("the directories changed after the cache was populated; the request must be answered from one content: before the change %q do not resolve, after it %q; got %q", wantOld, want, unresolved))
+			}
 		}
 		switch {
 		case nilSpec:
@@ -132,6 +178,12 @@ func TestC04Rapid(t *testing.T) {
 		}
 		if len(want) == 0 {
 			labels = append(labels, "all-resolve")
+		}
+		if stale {
+			labels = append(labels, "directories-changed-without-refresh")
+			if !reflect.DeepEqual(want, wantOld) {
+				labels = append(labels, "stale-and-fresh-answers-differ")
+			}
 		}
 		populated := !nilSpec && (before.Process != nil || before.Linux != nil || len(before.Mounts) > 0)
 		c := c04Case{Layout: l.Describe(), Request: reqCopy, NilSpec: nilSpec}
